@@ -131,6 +131,7 @@ type FnResult struct {
 	c          *Ctx
 	Secs       float64
 	sweep      bool
+	SafetyTag  string
 }
 
 type VerifyOpts struct {
@@ -153,6 +154,9 @@ func (p *Prog) VerifyFn(fn *ssa.Function, opts VerifyOpts) (res *FnResult) {
 		x.maxDepth = 6
 	}
 	res = &FnResult{Key: shortKey(key), Mode: mode, c: c}
+	if con != nil {
+		res.SafetyTag = con.Opts["safety-tag"]
+	}
 	t0 := time.Now()
 	defer func() {
 		if r := recover(); r != nil {
@@ -178,7 +182,7 @@ func (p *Prog) VerifyFn(fn *ssa.Function, opts VerifyOpts) (res *FnResult) {
 
 func (x *Exec) verifyEntry(fn *ssa.Function, con *FnContract) {
 	c := x.c
-	st := &State{pc: tTrue, cells: map[cellKey]Value{}, heap: Heap{}, alloc: c.Const("alloc0", SInt)}
+	st := &State{pc: tTrue, cells: map[cellKey]Value{}, heap: Heap{}, alloc: c.Const("alloc0", SInt), defs: []defSrc{{tTrue, 0, nil}}}
 	c.AddFact(tTrue, mk(SBool, ">=", st.alloc, intLit(0)), "alloc0")
 	fr := &frame{x: x, fn: fn, inst: 0, prefix: shortName(fn), con: con, params: map[string]Value{}}
 	regs := map[ssa.Value]Value{}
@@ -241,6 +245,7 @@ func (x *Exec) verifyEntry(fn *ssa.Function, con *FnContract) {
 	vac := x.oblige(fr, st, "vacuity", "requires-satisfiable", fn.Pos(), tFalse, "vacuity", "")
 	_ = vac
 	fr.entrySt = st.clone()
+	x.root = fr
 	fr.regs = regs
 	vals, out := x.runSeeded(fr, st)
 	if out == nil {
@@ -298,9 +303,23 @@ func (x *Exec) frameObligations(fr *frame, con *FnContract, out *State, post *En
 		}
 		locs = append(locs, l...)
 	}
-	if out.epoch != entry.epoch {
+	bumped, all := bumpedPrefixes(out, entry)
+	if all {
 		x.oblige(fr, out, "frame", "heap-havocked", fr.fn.Pos(), tFalse, "property", con.Opts["frame-tag"])
 		return
+	}
+	// arrays that may have changed without being read afterwards must be compared too
+	for _, p := range bumped {
+		found := false
+		for _, k := range sortedKeys(c.heapKeys) {
+			if strings.HasPrefix(k, p) {
+				x.heapGet(out, k, c.heapKeys[k])
+				found = true
+			}
+		}
+		if !found && p != "" {
+			c.Assume["frame: nothing under "+p+" was ever accessed although the mod-set allows writes there"] = true
+		}
 	}
 	r := c.Const("frame.r", SInt)
 	for _, k := range sortedKeys(out.heap) {
@@ -383,7 +402,7 @@ func solveAll(res *FnResult, timeout time.Duration) {
 				todo = append(todo, o)
 			}
 		}
-		run(todo, min(timeout, 5*time.Second))
+		run(todo, min(timeout, 2*time.Second))
 		changed := false
 		for _, o := range todo {
 			if o.Result.Verdict != "unsat" && res.Cands[o.candID].active {
@@ -477,7 +496,7 @@ func printResult(res *FnResult, verbose bool, dump string) {
 		if ok {
 			np++
 		}
-		if !ok || verbose {
+		if (!ok && o.candID < 0) || verbose {
 			fmt.Printf("   %-7s %-8s %s [%s %.2fs] %s\n", o.Result.Verdict, o.Level, o.ID, o.Result.Solver, o.Result.Secs, o.Pos)
 			if !ok && o.Result.Verdict != "sat" && o.Result.Raw != "" && verbose {
 				fmt.Println("        ", trunc(o.Result.Raw, 300))
